@@ -112,12 +112,18 @@ def sym_argopt_2d(c, shape, op, axis):
         c.assume(b_not(b_and(*[boolexpr(core.s_isnan(x)) for x in sl])))
     r = f(a, random_state=7, **kw)
     if axis is None:
-        c.prove(isinstance(r, np.ndarray) and r.shape == (2,), "shape")
+        ok = isinstance(r, np.ndarray) and r.shape == (2,)
+        c.prove(ok, "shape")
+        if not ok:
+            return
         i, j = int(r[0]), int(r[1])
         c.prove(_isopt(slices[0], i * shape[1] + j, op == "max"), "optimum")
         collect_reach(c, "tie_fairness", (i, j), _isopt(slices[0], i * shape[1] + j, op == "max"))
     else:
-        c.prove(isinstance(r, np.ndarray) and r.shape == (len(slices),), "shape")
+        ok = isinstance(r, np.ndarray) and r.shape == (len(slices),)
+        c.prove(ok, "shape", info=dict(got=getattr(r, "shape", None)))
+        if not ok:
+            return
         prem = []
         for k, sl in enumerate(slices):
             j = int(r[k])
